@@ -1489,8 +1489,11 @@ def run_leaf(l, pad, exc_code):
     cy = c_leaf_o(y)
     info.update(reread=y, eq=bool(y == o), same_canon=cy == c_leaf_o(o))
     f2 = io.BytesIO()
-    y.write(f2, padding=pad, version=1)
-    info["rewrite_same"] = f2.getvalue() == b
+    try:
+        y.write(f2, padding=pad, version=1)
+        info["rewrite_same"] = f2.getvalue() == b
+    except Exception as e:
+        info["rewrite_same"] = False
     return out + [0, h63_list(0, cy), int(cy == c_leaf_o(o)), int(wf_leaf(l))], info
 
 
@@ -1912,8 +1915,12 @@ def run_dval(d, exc_code):
     cy = c_dval_o(y)
     co = c_dval_d(d)
     f2 = io.BytesIO()
-    y.write(f2)
-    info.update(reread=y, eq=bool(y == o), same_canon=cy == co, rewrite_same=f2.getvalue() == b, grown=grown)
+    try:
+        y.write(f2)
+        same = f2.getvalue() == b
+    except Exception as e:
+        same = False
+    info.update(reread=y, eq=bool(y == o), same_canon=cy == co, rewrite_same=same, grown=grown)
     return out + [0, h63_list(0, cy), int(cy == co), grown, int(wf_dval(d))], info
 
 
@@ -2166,6 +2173,142 @@ def run_effects(l, exc_code):
         return out + [exc_code(e), int(wf_effects(l))], info
     cy, co = c_effects_o(y), c_effects_o(o)
     f2 = io.BytesIO()
-    y.write(f2)
-    info.update(reread=y, eq=bool(y == o), same_canon=cy == co, rewrite_same=f2.getvalue() == b)
+    try:
+        y.write(f2)
+        same = f2.getvalue() == b
+    except Exception as e:
+        same = False
+    info.update(reread=y, eq=bool(y == o), same_canon=cy == co, rewrite_same=same)
     return out + [0, h63_list(0, cy), int(cy == co), int(wf_effects(l))], info
+
+
+# ----------------------------------------------------------------------------- Stage 2: Patterns (Psd/Patterns.v)
+# vma: ["skip"] | ["empty", is_written] | ["full", is_written, depth, [4 u32], pixel_depth, compression, data]
+# vmal: [version, [4 u32], [vma...]];  pattern: [version, mode, [px, py], name_units, id_bytes, table|None, vmal]
+def coq_vma(a):
+    if a[0] == "skip":
+        return "VmaSkipped"
+    if a[0] == "empty":
+        return "VmaSkipped" if a[1] == 0 else "(VmaEmpty %s)" % z(a[1])     # is_written=0 without depth IS the skipped array
+    return "(VmaFull %s %s %s %s %s %s)" % (z(a[1]), z(a[2]), coq_list(z, a[3]), z(a[4]), z(a[5]), coq_bytes(a[6]))
+
+
+def coq_vmal(l):
+    return "(mkVMAL %s %s %s)" % (z(l[0]), coq_list(z, l[1]), coq_list(coq_vma, l[2]))
+
+
+def coq_pattern(p):
+    tbl = coq_opt(lambda t: coq_list(lambda c: "(%s, %s, %s)" % (z(c[0]), z(c[1]), z(c[2])), t), p[5])
+    return "(mkPattern %s %s (%s, %s) %s %s %s %s)" % (z(p[0]), z(p[1]), z(p[2][0]), z(p[2][1]), coq_list(z, p[3]),
+                                                         coq_bytes(p[4]), tbl, coq_vmal(p[6]))
+
+
+def obj_vma(a):
+    from psd_tools.psd.patterns import VirtualMemoryArray
+
+    if a[0] == "skip":
+        return VirtualMemoryArray(is_written=0)
+    if a[0] == "empty":
+        return VirtualMemoryArray(is_written=a[1])
+    return VirtualMemoryArray(a[1], a[2], tuple(a[3]), a[4], a[5], bytes(a[6]))
+
+
+def obj_pattern(p):
+    from psd_tools.psd.patterns import Pattern, VirtualMemoryArrayList
+
+    data = VirtualMemoryArrayList(p[6][0], tuple(p[6][1]), [obj_vma(a) for a in p[6][2]])
+    return Pattern(p[0], p[1], tuple(p[2]), units_to_str(p[3]), bytes(p[4]).decode("ascii"),
+                   None if p[5] is None else [tuple(c) for c in p[5]], data)
+
+
+def obj_patterns(l):
+    from psd_tools.psd.patterns import Patterns
+
+    return Patterns([obj_pattern(p) for p in l])
+
+
+def c_vma_o(a):
+    if a.is_written == 0 and a.depth is None:
+        return [0]
+    if a.depth is None:
+        return [1, int(a.is_written)]
+    return [2, int(a.is_written), a.depth] + c_list(lambda x: [x], list(a.rectangle)) + [a.pixel_depth, int(a.compression)] + c_bytes(a.data)
+
+
+def c_pattern_o(p):
+    return [p.version, int(p.image_mode), p.point[0], p.point[1]] + c_list(lambda x: [x], str_to_units(p.name)) + \
+        c_bytes(p.pattern_id.encode("ascii")) + c_opt(lambda t: c_list(lambda c: [c[0], c[1], c[2]], list(t)), p.color_table) + \
+        [p.data.version] + c_list(lambda x: [x], list(p.data.rectangle)) + c_list(c_vma_o, list(p.data.channels))
+
+
+def c_patterns_o(o):
+    return c_list(c_pattern_o, list(o))
+
+
+def wf_vma(a):
+    return a[0] in ("skip", "empty") or a[1] != 0
+
+
+def wf_pattern(p):
+    return p[0] == 1 and ((p[5] is not None and p[1] == 2 and len(p[5]) == 256) or (p[5] is None and p[1] != 2)) and \
+        p[6][0] == 3 and len(p[6][2]) >= 2 and all(wf_vma(a) for a in p[6][2])
+
+
+def g_vma(rng, wf=True):
+    r = rng.random()
+    if r < 0.25:
+        return ["skip"]
+    w = rng.choice([1, 1, 2, 2 ** 32 - 1]) if (wf or rng.random() < 0.7) else 0
+    if r < 0.4:
+        return ["empty", w]
+    return ["full", w, rng.choice([1, 8, 16, 32]), [g_u(rng, 4) for _ in range(4)], rng.choice([8, 16, 65535]), rng.randrange(4),
+            g_payload(rng, big=True)]
+
+
+def g_pattern(rng, wf=True):
+    from psd_tools.constants import ColorMode
+
+    mode = int(rng.choice(list(ColorMode)))
+    tbl = None
+    if mode == 2:
+        tbl = [[rng.randrange(256), rng.randrange(256), rng.randrange(256)] for _ in range(256)]
+    if not wf and rng.random() < 0.5:
+        mode, tbl = 3, [[1, 2, 3]] * 256                   # a colour table in a non-indexed pattern: written, not read back
+    n = rng.choice([2, 2, 3, 5, 26]) if (wf or rng.random() < 0.7) else rng.choice([2, 3])
+    pid = bytes(rng.choice(b"0123456789abcdef-") for _ in range(rng.choice([0, 1, 36])))
+    return [1, mode, [rng.choice([-32768, 0, 5, 32767]), rng.choice([-1, 0, 7])], g_units16(rng), pid, tbl,
+            [3, [g_u(rng, 4) for _ in range(4)], [g_vma(rng, wf) for _ in range(n)]]]
+
+
+def g_patterns(rng):
+    return [g_pattern(rng, wf=rng.random() < 0.9) for _ in range(rng.choice([0, 1, 1, 2, 3]))]
+
+
+def run_patterns(l, exc_code):
+    try:
+        o = obj_patterns(l)
+    except Exception as e:
+        return None, {"stage": "build", "err": e}
+    f = io.BytesIO()
+    try:
+        n = o.write(f)
+    except Exception as e:
+        return [exc_code(e)], {"stage": "write", "err": e}
+    b = f.getvalue()
+    out = [0, n, h63_list(0, list(b))]
+    info = {"stage": None, "obj": o, "bytes": b, "written": n}
+    wf = int(all(wf_pattern(p) for p in l))
+    try:
+        y = type(o).frombytes(b)
+    except Exception as e:
+        info.update(stage="read", err=e)
+        return out + [exc_code(e), wf], info
+    cy, co = c_patterns_o(y), c_patterns_o(o)
+    f2 = io.BytesIO()
+    try:
+        y.write(f2)
+        same = f2.getvalue() == b
+    except Exception as e:
+        same = False
+    info.update(reread=y, eq=bool(y == o), same_canon=cy == co, rewrite_same=same)
+    return out + [0, h63_list(0, cy), int(cy == co), wf], info
